@@ -200,3 +200,14 @@ check('C17',
       're-parsed by lxml and compared with the generator description, and deep-equal(parse-xml(serialize(.)), .) holds.',
       'numbers that went through xs:double (parse-json, json-to-xml) are compared as doubles; key order and namespace prefixes are not compared',
       'DESIGN.md section 3 C17')
+check('C18',
+      'bounded-exhaustive enumeration of (value, sequence type) pairs, of the subtype relation over type triples and of function calls against a reference matcher',
+      'Values: one constructed value of each of the 44 built-in atomic types plus the literal forms, a node of each of the seven kinds, seven function items (named '
+      'references, typed and untyped inline functions of arity 0-2), four maps, five arrays; every single value, every pair over a 12-value core and the empty '
+      'sequence (210 values). Types: every atomic type name, xs:numeric and xs:anyAtomicType x the four occurrence indicators, 24 kind tests x 4, 26 function / '
+      'map / array tests, empty-sequence(), 15 spacing variants (~370 types). For every pair: V instance of T, V treat as T (value unchanged or XPDY0050) and '
+      'match_sequence_type(V, T) equal the reference matcher. is_sequence_type_restriction on 95 types: reflexive on every type, transitive on every triple, '
+      'sound against the implementation matcher for every (value, S, T), and never claiming a subtype the reference rejects. Every function and constructor of the '
+      '2.0 and 3.1 symbol tables x every arity up to 3 x every tuple of a 16/19-value argument alphabet: each successful result matches the declared return type.',
+      'reference mc/models/seqtypes.py; nodes are untyped; maps and arrays against typed function tests are not judged; calls that raise are not judged',
+      'DESIGN.md section 3 C18')
